@@ -214,4 +214,13 @@ def c07_5(c: Ctx) -> None:
         c.fail(init, 'no rename of a bus whose name equals a live bus', 'two live buses can share a name: path-based loop prevention confuses them')
 
 
+
+@ob('C07.6', 'MPT', 'a dispatch (and therefore a forward) that returns normally has enqueued the event on this bus (same obligation as C14.3): a bus that silently declines a forwarded '
+    'event is "reachable through forwarding" and yet never processes it')
+def c07_6(c: Ctx) -> None:
+    from .c14 import c14_3
+
+    c14_3(c)
+
+
 OBLIGATIONS = ob.obs
